@@ -834,6 +834,57 @@ def corpus_cases():
     return out
 
 
+def list_open_cases(ctx, tmpdir):
+    """several RDB files opened together: a channels preselect is equivalent to selecting those channels afterwards,
+    a dumps preselect (whose indices would mean something else in every file) is refused with IndexError"""
+    import random
+    import katdal
+    from katsdptelstate.rdb_writer import RDBWriter
+    out = []
+    paths = []
+    F = 6
+    for k in range(2):
+        sd = tempfile.mkdtemp(dir=tmpdir)
+        rng = random.Random(ctx.seed * 7 + k)
+        syn = v4synth.make_v4(rng, T=5, F=F, n_ants=1, store_dir=sd, sync_time=1.6e9 + 1000.0 * k, cbid=f'16000000{k}0',
+                              seed=11 + k)
+        syn.telstate['capture_block_id'] = syn.cbid
+        syn.telstate['stream_name'] = syn.stream
+        d = os.path.join(sd, syn.cbid)
+        os.makedirs(d, exist_ok=True)
+        path = os.path.join(d, f'{syn.cbid}_{syn.stream}.rdb')
+        with RDBWriter(path) as w:
+            w.save(syn.telstate)
+        paths.append(path)
+    case = dict(kind='listopen', paths=len(paths))
+    for pre in (dict(dumps=slice(1, 4)), dict(dumps=slice(0, 5), channels=slice(1, 3))):
+        try:
+            dd = katdal.open(paths, preselect=pre)
+            out.append((dict(case, pre=str(pre)),
+                        f'katdal.open of {len(paths)} files accepted preselect={pre} ({len(dd.timestamps)} dumps): a dumps '
+                        f'preselect on several files is neither refused nor equivalent to selecting those dumps afterwards'))
+        except IndexError:
+            ctx.tag('listopen-dumps-refused')
+        except Exception as e:   # noqa: BLE001
+            out.append((dict(case, pre=str(pre)), f'katdal.open of several files with preselect={pre} raised '
+                                                  f'{type(e).__name__} instead of IndexError'))
+    try:
+        whole = katdal.open(paths)
+        whole.select(channels=slice(1, 4))
+        part = katdal.open(paths, preselect=dict(channels=slice(1, 4)))
+        same = (np.array_equal(whole.freqs, part.freqs) and np.array_equal(whole.timestamps[:], part.timestamps[:])
+                and np.array_equal(np.asarray(whole.vis[:]), np.asarray(part.vis[:])))
+        if not same:
+            out.append((dict(case, pre='channels'), 'several files opened with a channels preselect differ from opening '
+                                                    'them whole and selecting those channels'))
+        ctx.tag('listopen-channels-equivalent')
+    except Exception as e:   # noqa: BLE001
+        out.append((dict(case, pre='channels'), f'several files with a channels preselect raised {type(e).__name__}: '
+                                                f'{str(e)[:100]}'))
+    ctx.count(('listopen',), True, sample={'listopen': len(paths)})
+    return out
+
+
 def run(ctx):
     ctx.matchers.update(MATCHERS)
     build = common.build_and_audit('C17', ctx.tier)
@@ -856,6 +907,8 @@ def run(ctx):
                    [gen_spw_case(ctx.rng) for _ in range(4 * n_spw)]
             bad = evaluate(ctx, more, tmpdir)
         for c, v in bad:
+            ctx.violation(c, v)
+        for c, v in list_open_cases(ctx, tmpdir):
             ctx.violation(c, v)
         ctx.assumptions = ['floats of the implementation are exact for the dyadic parameters generated',
                            'select() has mask semantics and the last selection per axis wins (C02)',
